@@ -369,10 +369,28 @@ func vdMsgSetDigests(ms *MessageSet, out []string, depth int) []string {
 	return out
 }
 
+// vdTouchRecords makes the calls a consumer makes on a decoded Records value (consumer.go parseResponse): they
+// run on data the client does not control, inside the same guard as the decode.
+func vdTouchRecords(r *Records) {
+	if r == nil {
+		return
+	}
+	_, _ = r.numRecords()
+	_, _ = r.isPartial()
+	_, _ = r.isOverflow()
+	if ctl, err := r.isControl(); err == nil && ctl {
+		_, _ = r.getControlRecord()
+	}
+	if r.RecordBatch != nil {
+		_ = r.RecordBatch.LastOffset()
+	}
+}
+
 func vdRecordsDigests(r *Records, out []string) []string {
 	if r == nil {
 		return out
 	}
+	vdTouchRecords(r)
 	if r.MsgSet != nil {
 		out = vdMsgSetDigests(r.MsgSet, out, 0)
 	}
@@ -400,6 +418,10 @@ func vdFetchDigests(fr *FetchResponse) []string {
 			if b == nil {
 				continue
 			}
+			_, _ = b.numRecords()
+			_, _ = b.isPartial()
+			_ = b.getAbortedTransactions()
+			vdTouchRecords(b.Records)
 			if b.Partial {
 				out = append(out, vdPartialMark)
 			}
@@ -558,8 +580,16 @@ func vdWrapBatch(codec CompressionCodec, nrec int) func([]byte) []byte {
 
 func vdRecordSubjects() []*vdSubject {
 	var out []*vdSubject
-	batchDig := func(d decoder) []string { return vdBatchDigests(d.(*RecordBatch)) }
-	setDig := func(d decoder) []string { return vdMsgSetDigests(d.(*MessageSet), []string{}, 0) }
+	batchDig := func(d decoder) []string {
+		r := newDefaultRecords(d.(*RecordBatch))
+		vdTouchRecords(&r)
+		return vdBatchDigests(d.(*RecordBatch))
+	}
+	setDig := func(d decoder) []string {
+		r := newLegacyRecords(d.(*MessageSet))
+		vdTouchRecords(&r)
+		return vdMsgSetDigests(d.(*MessageSet), []string{}, 0)
+	}
 	for _, c := range vdCodecs {
 		c := c
 		s := vdPlainDecodeSubject("RecordBatch/"+c.String(), 2, vdMustEncode(vdTestBatch(c, false)),
@@ -588,7 +618,7 @@ func vdRecordSubjects() []*vdSubject {
 				if err := decode(b, x); err != nil {
 					return nil, err
 				}
-				return vdBatchDigests(x), nil
+				return batchDig(x), nil
 			},
 			hasRecs: true, comp: c != CompressionNone,
 		})
@@ -699,6 +729,58 @@ func vdRecordSubjects() []*vdSubject {
 			func(d decoder) []string {
 				return vdMsgSetDigests(&MessageSet{Messages: []*MessageBlock{{Msg: d.(*Message)}}}, []string{}, 0)
 			}))
+	}
+	// Records.decode on a bare decoder for v2 batches (control and data), and for every batch subject the
+	// structural cases "record count := 0 / 1, everything else consistent": the batch re-encoded with that many
+	// records (records section, batch length and CRC all right)
+	countCases := func(codec CompressionCodec, control bool) func(tp *vdTape) []vdCase {
+		return func(tp *vdTape) []vdCase {
+			var cs []vdCase
+			for _, n := range []int{0, 1} {
+				for _, ctl := range []bool{control, !control} {
+					b := vdTestBatch(codec, ctl)
+					if n < len(b.Records) {
+						b.Records = b.Records[:n]
+					}
+					if n == 0 {
+						b.Records = []*Record{}
+					}
+					b.LastOffsetDelta = 0
+					cs = append(cs, vdCase{Kind: "count", Trig: fmt.Sprintf("records=%d,control=%v", n, ctl), Prim: "getArrayLength",
+						Caller: "(*RecordBatch).decode", Fix: true, inner: vdMustEncode(b)})
+				}
+			}
+			return cs
+		}
+	}
+	for _, ctl := range []bool{false, true} {
+		ctl := ctl
+		name := "Records.batch/data"
+		if ctl {
+			name = "Records.batch/control"
+		}
+		out = append(out, &vdSubject{
+			name: name, ver: 2, valid: vdMustEncode(vdTestBatch(CompressionNone, ctl)),
+			tape: func(b []byte, tp *vdTape) error { return (&Records{}).decode(vdNewTapeDec(b, tp)) },
+			run: func(b []byte) ([]string, error) {
+				r := &Records{}
+				if err := r.decode(&realDecoder{raw: b}); err != nil {
+					return nil, err
+				}
+				return vdRecordsDigests(r, []string{}), nil
+			},
+			hasRecs: true, extra: countCases(CompressionNone, ctl),
+		})
+	}
+	for _, s := range out {
+		switch s.name {
+		case "RecordBatch/none":
+			s.extra = countCases(CompressionNone, false)
+		case "RecordBatch/control":
+			s.extra = countCases(CompressionNone, true)
+		case "RecordBatch/gzip":
+			s.extra = countCases(CompressionGZIP, false)
+		}
 	}
 	// "decompression bombs by header": a few bytes whose compression header merely DECLARES a large decoded size
 	// (the statement exempts what decompressing legitimately yields - here nothing is yielded, the decode fails)
